@@ -599,3 +599,144 @@ func verifC01ztrm(name string, solve bool) {
 
 func VerifC01_Ztrmm() { verifC01ztrm("Ztrmm", false) }
 func VerifC01_Ztrsm() { verifC01ztrm("Ztrsm", true) }
+
+// ---- Level 1: Dzasum, Dznrm2, Izamax, Zcopy, Zswap ----
+
+// |Re z| + |Im z| (the BLAS "cabs1")
+func verifC01z2abs1(z complex128) float64 {
+	return verifC01z2absF(real(z)) + verifC01z2absF(imag(z))
+}
+
+func verifC01z2absF(x float64) float64 {
+	return verifIteF(x < 0, -x, x)
+}
+
+// VerifC01_Dzasum: result = sum |Re x[i]| + |Im x[i]| over addressed elements; x unchanged.
+func VerifC01_Dzasum() {
+	n := verifChoose("n", 0, verifParam("l1n", 4))
+	incX := verifC01posinc("incX")
+	slack := verifChoose("slack", 0, 1)
+	x := verifComplexes("x", verifC01vlen(n, incX, slack))
+	x0 := verifC01zclone(x)
+	got := Implementation{}.Dzasum(n, x, incX)
+	verifC01zsame(x, x0, "Dzasum: x unchanged")
+	var want float64
+	for i := 0; i < n; i++ {
+		want += verifC01z2abs1(x0[i*incX])
+	}
+	verifAssertEqF(got, want, "Dzasum: sum of |Re|+|Im| over addressed elements")
+	verifReach("end")
+}
+
+// VerifC01_Izamax: first index of the maximum |Re x[i]|+|Im x[i]| over addressed elements; -1 for n == 0.
+func VerifC01_Izamax() {
+	n := verifChoose("n", 0, verifParam("l1n", 4)-1)
+	incX := verifC01posinc("incX")
+	slack := verifChoose("slack", 0, 1)
+	x := verifComplexes("x", verifC01vlen(n, incX, slack))
+	x0 := verifC01zclone(x)
+	got := Implementation{}.Izamax(n, x, incX)
+	verifC01zsame(x, x0, "Izamax: x unchanged")
+	if n == 0 {
+		verifAssert(got == -1, "Izamax: -1 for n == 0")
+		verifReach("end")
+		return
+	}
+	verifAssert(verifAnd(got >= 0, got < n), "Izamax: index in range")
+	for i := 0; i < n; i++ {
+		if got == i { // fork on the result; at most n feasible values
+			g := verifC01z2abs1(x0[i*incX])
+			for j := 0; j < n; j++ {
+				a := verifC01z2abs1(x0[j*incX])
+				verifAssert(a <= g, "Izamax: |Re|+|Im| of x[idx] is the maximum")
+				if j < i {
+					verifAssert(a < g, "Izamax: earliest index among ties")
+				}
+			}
+		}
+	}
+	verifReach("end")
+}
+
+// VerifC01_Dznrm2: r >= 0 and r*r == sum Re(x[i])^2+Im(x[i])^2 over addressed elements (exact reals).
+func VerifC01_Dznrm2() {
+	n := verifChoose("n", 0, verifParam("znrm2n", 1))
+	incX := verifC01posinc("incX")
+	slack := verifChoose("slack", 0, 1)
+	x := verifComplexes("x", verifC01vlen(n, incX, slack))
+	x0 := verifC01zclone(x)
+	got := Implementation{}.Dznrm2(n, x, incX)
+	verifC01zsame(x, x0, "Dznrm2: x unchanged")
+	var ss float64
+	for i := 0; i < n; i++ {
+		v := x0[i*incX]
+		ss += real(v)*real(v) + imag(v)*imag(v)
+	}
+	verifAssert(got >= 0, "Dznrm2: result non-negative")
+	verifAssertEqF(got*got, ss, "Dznrm2: r*r = sum |x[i]|^2 over addressed elements")
+	verifReach("end")
+}
+
+// VerifC01_ZL1NegInc: documented: Dzasum and Dznrm2 return 0, Izamax returns -1, Zscal and Zdscal
+// have no effect when incX is negative; x is never written.
+func VerifC01_ZL1NegInc() {
+	n := verifChoose("n", 0, 3)
+	incX := -verifChoose("negIncX", 1, 2)
+	slack := verifChoose("slack", 0, 1)
+	x := verifComplexes("x", verifC01vlen(n, incX, slack))
+	alpha := complex(verifFloat("alpha.re"), verifFloat("alpha.im"))
+	x0 := verifC01zclone(x)
+	switch verifChoose("routine", 0, 4) {
+	case 0:
+		verifAssertEqF(Implementation{}.Dzasum(n, x, incX), 0, "Dzasum: 0 for negative increment")
+	case 1:
+		verifAssertEqF(Implementation{}.Dznrm2(n, x, incX), 0, "Dznrm2: 0 for negative increment")
+	case 2:
+		verifAssert(Implementation{}.Izamax(n, x, incX) == -1, "Izamax: -1 for negative increment")
+	case 3:
+		Implementation{}.Zscal(n, alpha, x, incX)
+	default:
+		Implementation{}.Zdscal(n, real(alpha), x, incX)
+	}
+	verifC01zsame(x, x0, "negative increment: x untouched")
+	verifReach("end")
+}
+
+// VerifC01_Zcopy: y[i] = x[i] bit for bit on addressed elements; x and the rest of y unchanged.
+func VerifC01_Zcopy() {
+	n := verifChoose("n", 0, verifParam("l1n", 4))
+	incX := verifC01inc("incX")
+	incY := verifC01inc("incY")
+	slack := verifChoose("slack", 0, 1)
+	x := verifComplexes("x", verifC01vlen(n, incX, slack))
+	y := verifComplexes("y", verifC01vlen(n, incY, slack))
+	x0, y0 := verifC01zclone(x), verifC01zclone(y)
+	Implementation{}.Zcopy(n, x, incX, y, incY)
+	verifC01zsame(x, x0, "Zcopy: x unchanged")
+	want := verifC01zclone(y0)
+	for i := 0; i < n; i++ {
+		want[verifVecIdx(n, incY, i)] = x0[verifVecIdx(n, incX, i)]
+	}
+	verifC01zsame(y, want, "Zcopy: y[i] = x[i] bit for bit on addressed elements, rest untouched")
+	verifReach("end")
+}
+
+// VerifC01_Zswap: x[i], y[i] exchanged on addressed elements; everything else unchanged.
+func VerifC01_Zswap() {
+	n := verifChoose("n", 0, verifParam("l1n", 4))
+	incX := verifC01inc("incX")
+	incY := verifC01inc("incY")
+	slack := verifChoose("slack", 0, 1)
+	x := verifComplexes("x", verifC01vlen(n, incX, slack))
+	y := verifComplexes("y", verifC01vlen(n, incY, slack))
+	x0, y0 := verifC01zclone(x), verifC01zclone(y)
+	Implementation{}.Zswap(n, x, incX, y, incY)
+	wx, wy := verifC01zclone(x0), verifC01zclone(y0)
+	for i := 0; i < n; i++ {
+		ix, iy := verifVecIdx(n, incX, i), verifVecIdx(n, incY, i)
+		wx[ix], wy[iy] = y0[iy], x0[ix]
+	}
+	verifC01zsame(x, wx, "Zswap: x gets y bit for bit on addressed elements, rest untouched")
+	verifC01zsame(y, wy, "Zswap: y gets x bit for bit on addressed elements, rest untouched")
+	verifReach("end")
+}
